@@ -723,7 +723,10 @@ class GriffeLoader:
         for parent_offset, parent_part in enumerate(parent_parts, 2):
             module_filepath = parents[len(subparts) - parent_offset]
             try:
-                parent_module = parent_module.get_member(parent_part)
+                member = parent_module.get_member(parent_part)
+                if member.is_alias or not member.is_module:
+                    # The parent package could not be loaded and an object of the same name took its place.
+                    raise KeyError(parent_part)  # noqa: TRY301
             except KeyError as error:
                 if parent_module.is_namespace_package or parent_module.is_namespace_subpackage:
                     next_parent_module = self._create_module(parent_part, [module_filepath])
@@ -732,6 +735,7 @@ class GriffeLoader:
                 else:
                     raise UnimportableModuleError(f"Skip {subpath}, it is not importable") from error
             else:
+                parent_module = member
                 parent_namespace = parent_module.is_namespace_package or parent_module.is_namespace_subpackage
                 if parent_namespace and module_filepath not in parent_module.filepath:  # type: ignore[operator]
                     parent_module.filepath.append(module_filepath)  # type: ignore[union-attr]
